@@ -4,7 +4,8 @@
    rejected: `promised syms c P w` = w is over syms and satisfies P, resp. not P when c = false). *)
 From Coq Require Import List Arith Bool.
 From AV Require Import Base.Util Spec.Lang Spec.FA Spec.Minimal Spec.Preds Model.Decide Model.Product Model.Construct
-                       Proofs.Preds Proofs.Border Proofs.Construct Proofs.IsMinimal Proofs.CtorMinimal.
+                       Model.KMP
+                       Proofs.Preds Proofs.Border Proofs.Construct Proofs.IsMinimal Proofs.CtorMinimal Proofs.KMP.
 Import ListNotations.
 
 (* ---- from_prefix: contains / complement, partial / complete ---- *)
@@ -74,6 +75,34 @@ Proof.
   intros k Hk Hs. apply lps_max. split; assumption.
 Qed.
 Print Assumptions C15_longest_border_step.
+
+(* ---- the mirror model of the code of from_substring / from_suffix (Model/KMP.v: the Knuth-Morris-Pratt
+        failure table with its `kmp_table[i] = kmp_table[candidate]` shortcut, the candidate walk per state and
+        symbol, `limit`, the walked row of the full-match state when must_be_suffix) never raises, never runs
+        out of fuel, and returns EXACTLY the specification model: same states, same transition table row by
+        row, same final states - for every alphabet, every pattern (the empty one included), both flags ---- *)
+Theorem C15_kmp_faithful : forall syms p contains must_be_suffix,
+  kmp_dfa syms p contains must_be_suffix = Ok (from_substring_m syms p contains must_be_suffix).
+Proof. exact kmp_dfa_faithful. Qed.
+Print Assumptions C15_kmp_faithful.
+
+(* what the table holds: entry c < |p| is the strong failure link of position c - the longest proper border k
+   of p[0..c) with p[k] <> p[c], -1 (None) if there is none; the appended entry |p| is the longest proper
+   border of p *)
+Theorem C15_kmp_table_spec : forall p, p <> [] ->
+  exists T, kmp_table p = Ok (T ++ [Some (pb p (length p))]) /\ length T = length p /\
+    (forall c, c < length p -> exists r, nth_error T c = Some r /\
+       (forall k, r = Some k -> pbord p c k /\ nth_error p k <> nth_error p c) /\
+       (forall k, pbord p c k -> nth_error p k <> nth_error p c -> exists k', r = Some k' /\ k <= k')) /\
+    pbord p (length p) (pb p (length p)) /\
+    (forall k, pbord p (length p) k -> k <= pb p (length p)).
+Proof.
+  intros p Hne. assert (Hn : 1 <= length p) by (destruct p; [congruence|simpl; apply le_n_S, Nat.le_0_l]).
+  destruct (kmp_table_ok p Hn) as [T [E [HL HT]]]. exists T. split; [exact E|]. split; [exact HL|]. split.
+  - intros c Hc. destruct (HT c Hc) as [r [Er [S1 S2]]]. exists r. split; [exact Er|]. split; assumption.
+  - split; [apply pb_pbord; [exact Hn|apply le_n]|]. intros k Hk. apply pb_max; [exact Hn|apply le_n|exact Hk].
+Qed.
+Print Assumptions C15_kmp_table_spec.
 
 (* ---- of_length: counted symbols (all symbols when symbols_to_count is None) in [lo, hi] ---- *)
 Theorem C15_of_length_lang : forall syms lo hi cnt,
@@ -211,6 +240,12 @@ Example C15_example_substring :     (* self-overlapping pattern 0 0 1 0 0 *)
     [(0,[(0,1);(1,0)]); (1,[(0,2);(1,0)]); (2,[(0,2);(1,3)]); (3,[(0,4);(1,0)]);
      (4,[(0,5);(1,0)]); (5,[(0,2);(1,3)])] /\
   from_substring_m [0;1] [] false true = empty_m [0;1].
+Proof. vm_compute. repeat split. Qed.
+
+Example C15_example_kmp :      (* the table of the code on 0 0 1 0 0 and on 0 1 0 1 0 2 0; None = -1 *)
+  kmp_table [0;0;1;0;0] = Ok [None; None; Some 1; None; None; Some 2] /\
+  kmp_table [0;1;0;1;0;2;0] = Ok [None; Some 0; None; Some 0; None; Some 3; None; Some 1] /\
+  kmp_dfa [0;1] [0;0;1;0;0] true true = Ok (from_suffix_m [0;1] [0;0;1;0;0] true).
 Proof. vm_compute. repeat split. Qed.
 
 Example C15_example_numeric :
